@@ -162,7 +162,7 @@ func buildBoundedSource(cts []*Contract, findings []Finding) (string, []*Bounded
 // govcForall: every index that can address a value of the bounded generators (lists of at most a few hundred
 // elements, buffers of at most 4096 octets).
 func govcForall(f func(int) bool) bool {
-	for k := -2; k <= 4100; k++ {
+	for k := -2; k <= 4100*govcScale; k++ {
 		if !f(k) {
 			return false
 		}
@@ -327,9 +327,9 @@ func RunBounded(eng *Engine, opts CheckOpts, findings []Finding) (outs []*Bounde
 	if len(cts) == 0 {
 		return nil, "", ""
 	}
-	n, timeout := 3000, 240*time.Second
+	n, timeout, scale := 3000, 240*time.Second, 1
 	if opts.Tier == "thorough" {
-		n, timeout = 200000, 1500*time.Second
+		n, timeout, scale = 200000, 2400*time.Second, 4
 	}
 	if s := os.Getenv("GOVC_BOUNDED_N"); s != "" {
 		fmt.Sscanf(s, "%d", &n)
@@ -339,7 +339,7 @@ func RunBounded(eng *Engine, opts CheckOpts, findings []Finding) (outs []*Bounde
 		seed = 1
 	}
 	src, outs = buildBoundedSource(cts, findings)
-	out, _ := runBoundedTest(opts, src, []string{fmt.Sprintf("GOVC_BOUNDED_SEED=%d", seed), fmt.Sprintf("GOVC_BOUNDED_N=%d", n)}, timeout)
+	out, _ := runBoundedTest(opts, src, []string{fmt.Sprintf("GOVC_BOUNDED_SEED=%d", seed), fmt.Sprintf("GOVC_BOUNDED_N=%d", n), fmt.Sprintf("GOVC_BOUNDED_SCALE=%d", scale)}, timeout)
 	for _, line := range strings.Split(out, "\n") {
 		m := reBoundedLine.FindStringSubmatch(strings.TrimSpace(line))
 		if m == nil {
@@ -372,7 +372,7 @@ func RunBounded(eng *Engine, opts CheckOpts, findings []Finding) (outs []*Bounde
 		}
 	}
 	for _, o := range outs {
-		o.Bound = fmt.Sprintf("%d generated cases (seed %d) from generator %s; quantified indices enumerated over [-2,4100]", n, seed, o.Gen)
+		o.Bound = fmt.Sprintf("%d generated cases (seed %d) from generator %s with size scale %d (see the header of bounded/generators.go); quantified indices enumerated over [-2,%d]", n, seed, o.Gen, scale, 4100*scale)
 		if !o.Finished {
 			tail := out
 			if len(tail) > 1500 {
